@@ -290,8 +290,34 @@ def case_random_block(case):
                 items = [it for it in items if not isinstance(it, str)] or [1.0]      # numpy cannot hold mixed str/number lists
                 exact_items = None
             if exact_items is not None and not all(isinstance(it, str) for it in items):
+                # ... whatever sequence holds them (a list, a tuple, a numpy array of objects), and the caller's sequence
+                # still holds the same items afterwards, so that it can be used for a second array in other units
+                icont = r.choice(["list", "list", "tuple", "object ndarray"])
+                held = list(items)
+                if icont == "tuple":
+                    items = tuple(items)
+                elif icont == "object ndarray":
+                    oa = np.empty(len(items), dtype=object)
+                    for k_, it in enumerate(held):
+                        oa[k_] = it
+                    items = oa
+                stats["item_container:" + icont] = stats.get("item_container:" + icont, 0) + 1
                 ma = U.UnitArray(items, U.Units(mk_sys(U, A), mk_dim(U, d3)))
                 stats["mixed_item_arrays"] = stats.get("mixed_item_arrays", 0) + 1
+                if len(items) != len(held) or any(a_ is not b_ for a_, b_ in zip(items, held)):
+                    bad.append({"what": "building an array from items changed the caller's sequence of items", "container": icont,
+                                "items_now": [str(x) for x in items][:4], "items_given": [str(x) for x in held][:4]})
+                else:
+                    mb = U.UnitArray(items, U.Units(mk_sys(U, B), mk_dim(U, d3)))
+                    stats["item_sequences_used_twice"] = stats.get("item_sequences_used_twice", 0) + 1
+                    for y, ex, it in zip(mb.value, exact_items, held):
+                        if isinstance(it, (int, float)):
+                            continue                       # a bare number is a number of the new array's units: judged above
+                        if not close(float(y), ex * si.factor(A, B, d3)):
+                            bad.append({"what": "array built from items with their own units: an item was not converted with its own factor",
+                                        "second_use_of_the_sequence": True, "container": icont, "A": B, "dim": d3, "got": float(y),
+                                        "expected": float(ex * si.factor(A, B, d3))})
+                            break
                 for y, ex in zip(ma.value, exact_items):
                     if not close(float(y), ex):
                         bad.append({"what": "array built from items with their own units: an item was not converted with its own factor",
